@@ -66,7 +66,7 @@ func C11(c *run.Ctx) int {
 		return id, c11Eval(c, id, prog, run.NewRng(seed^0x11), perProg)
 	})
 	c11Templates(c)
-	return c.Finish("valid generated programs, each subjected to single rule-breaking injections (undeclared identifier / function / type / member, call arity and argument type, discarded @must_use result, false const_assert incl. float and builtin conditions, @group without @binding and vice versa, array size 0 / negative (literal and const), swizzle mixing or exceeding width, missing @workgroup_size, constant division by zero in several const contexts, missing semicolon, removed closing delimiter) at random applicable sites (nested blocks, continuing blocks, helpers, entry points, const initialisers, builtin arguments); "+
+	return c.Finish("valid generated programs, each subjected to single rule-breaking injections (undeclared identifier / function / type / member, call arity and argument type, discarded @must_use result, false const_assert incl. float and builtin conditions, @group without @binding and vice versa, array size 0 / negative (literal and const), swizzle mixing or exceeding width, missing @workgroup_size, constant division by zero in several const contexts, missing semicolon, removed closing delimiter) at random applicable sites, a third of them re-encoded with CR LF line endings behind a multi-line block comment (nested blocks, continuing blocks, helpers, entry points, const initialisers, builtin arguments); "+
 		"oracle: the one-call compile API must return an error and no output; the reported position must lie inside the source, inside the enclosing module-scope declaration for semantic errors, and at the first token that cannot continue the grammar for syntax errors; "+
 		"plus a fixed grid of ill-typed / undeclared calls (6 forms) x 23 statement positions (let, for init / condition / update, while, if, switch selector and body, continuing, break-if, index, nested argument, ...) x callee declared before / after the caller, each next to its well-formed sibling that must compile; "+
 		"distinct = distinct (rule, variant, site context) triples observed rejected; counters per rule",
@@ -116,6 +116,19 @@ func c11Eval(c *run.Ctx, id string, prog *wgen.Program, r *run.Rng, k int) run.O
 			if inj.Decl >= 0 && inj.Decl < len(p2.DeclSpan) {
 				span = p2.DeclSpan[inj.Decl]
 			}
+		}
+		if r.Chance(1, 3) {
+			// the same source with CR LF line endings behind a three-line block comment: WGSL counts CR LF as one line
+			// break, so every position moves down by exactly three lines
+			src = "/* c11\r\n   line-ending\r\n   probe */\r\n" + strings.ReplaceAll(src, "\n", "\r\n")
+			if span[0] > 0 {
+				span[0] += 3
+				span[1] += 3
+			}
+			if inj.ExpLine > 0 {
+				inj.ExpLine += 3
+			}
+			cov["crlf-variant"]++
 		}
 		cov["injected:"+rule]++
 		stage, msg := rejectedBy(src)
